@@ -140,6 +140,8 @@ package encrypt
 
 //@ func (*Filter).ignore(v) (ig)
 //@   assigns nothing
+//@   ensures C09+C10/only-values-of-exactly-a-listed-type-are-ignored: ig ==> (exists i int :: 0 <= i && i < len(f.IgnoreTypes) && valof(f.IgnoreTypes[i]) == uf("reflect.Type", v))
+//@   ensures C09+C10/nothing-is-ignored-without-a-list: len(f.IgnoreTypes) == 0 ==> !ig
 //@   loop 1 invariant true
 
 //@ func (*Filter).copyFilterOperationOverrides() (cp)
